@@ -177,7 +177,12 @@ def main():
         os.makedirs(work, exist_ok=True)
         try:
             for st in cfg["streams"]:
-                rep = streams.run_stream(st, prop, tier, seed, work, replay)
+                try:
+                    rep = streams.run_stream(st, prop, tier, seed, work, replay)
+                except Exception as ex:                      # a crashing stream is a broken correspondence, never a silent pass
+                    import traceback
+                    rep = {"evaluations": 0, "distinct_nontrivial": 0, "rule": "", "samples": [], "oracle_failures": [],
+                           "disagreements": [{"stream_crashed": repr(ex), "traceback": traceback.format_exc()[-1200:]}]}
                 rep["stream"] = st["name"]
                 reports.append(rep)
         finally:
